@@ -3,7 +3,7 @@
 // the range sizes — with the length of the array the index is used for. A MultipleSubst subtable with one sequence and
 // a one-glyph coverage range whose startCoverageIndex is 5 passes Sanitize (1 == 1) and Sequences[5] panics in Shape.
 // AlternateSubst and CursivePos are not sanitized at all: "alt" and "curs" use a format 1 coverage with two glyphs and a
-// single record. "mark filtering set": the index of a GDEF mark glyph set named by a lookup is used without a bound test. "nested lookup index": only format 1 contextual lookups have the lookup indices of their records compared with the number of lookups. "feature index", "lookup index": the feature indices of a LangSys and the lookup indices of a feature are used as indices without being compared with the feature and lookup counts.
+// single record. "mark filtering set": the index of a GDEF mark glyph set named by a lookup is used without a bound test. "nested lookup index": only format 1 contextual lookups have the lookup indices of their records compared with the number of lookups. "extension": the lookup sanitizers of the loader are dispatched on the subtable BEFORE the extension is resolved, so no extension-wrapped subtable is ever sanitized. "feature index", "lookup index": the feature indices of a LangSys and the lookup indices of a feature are used as indices without being compared with the feature and lookup counts.
 package main
 
 import (
@@ -171,6 +171,14 @@ func main() {
 		st = append(st, u16(1, 1, a)...)
 		return append(st, u16(1, b)...)
 	}
+	bad = try("extension lookups are not sanitized", "GSUB", func(a, b int) []byte {
+		// ExtensionSubst (type 7) -> MultipleSubst with a two-glyph coverage and a single sequence: rejected when it is not
+		// wrapped, accepted when it is, because the sanitizers are dispatched on the unresolved extension subtable
+		inner := u16(1, 8, 1, 16)
+		inner = append(inner, u16(1, 2, a, b)...)
+		inner = append(inner, u16(1, b)...)
+		return layout("liga", 7, append(u16(1, 2, 0, 8), inner...))
+	}) || bad
 	bad = try("feature index of a LangSys", "GSUB", func(a, b int) []byte {
 		return layoutIdx("liga", 2, 0, 5, 0, multiple(a, b))
 	}) || bad
